@@ -1,4 +1,5 @@
 import HpxVerif.Model.Topo
+import HpxVerif.Lemmas.TopoGen
 
 /-!
 # C04 — neighbours are exactly the geometrically adjacent cells, correctly labelled
@@ -105,5 +106,25 @@ theorem neighbour_rejects (cfg : Cfg) (d h : Nat) (dir : MW) (hh : h ≥ Layer.n
 /-- **test** (kernel evaluation on the model, depths 0 and 1): exact adjacency with labels -/
 theorem exact_small_depths_test : exactAt 0 = true ∧ exactAt 1 = true := by
   decide +kernel
+
+/-! ## the model's tables are the tables of the source (regenerated on every run) -/
+
+/-- the seam rules of the model (`ncp_/eqr_/spc_neighbour` of `nested/mod.rs`, through `neighbour_from_shifted_coos`)
+    are, entry by entry, what the translator tabulates from the source text on this run -/
+theorem seam_rules_from_source : ∀ b, b < 12 → ∀ w : MW, w ≠ .C →
+    seamRule b w = TopoGen.decodeSeam ((TopoGen.lk2 Gen.seamRules b w.index).bind id) := TopoGen.seam_rules
+
+/-- ... and the base cell they reach is `lib::neighbour(base_cell, direction)` (the crate's two tables agree) -/
+theorem seam_rules_agree_with_base_table : ∀ b, b < 12 → ∀ w : MW, w ≠ .C →
+    (seamRule b w).map (·.1) = (TopoGen.lk2 Gen.baseNeighbour b w.index).bind id := TopoGen.seam_rules_base
+
+/-- `MainWind`: index, `opposite`, `offset_se/sw`, `from_offsets`, `is_cardinal/ordinal` as in `compass_point.rs` -/
+theorem compass_from_source :
+    (∀ w : MW, (TopoGen.lk Gen.mwOpposite w.index).bind MW.ofIndex = some w.opposite) ∧
+    (∀ w : MW, TopoGen.lk Gen.mwOffsetSe w.index = some w.offsetSe ∧ TopoGen.lk Gen.mwOffsetSw w.index = some w.offsetSw) ∧
+    (∀ w : MW, TopoGen.lk Gen.mwIsCardinal w.index = some w.isCardinal ∧ TopoGen.lk Gen.mwIsOrdinal w.index = some w.isOrdinal) ∧
+    (∀ se sw : Fin 3, MW.ofOffsets ((se.val : Int) - 1) ((sw.val : Int) - 1) =
+      (TopoGen.lk Gen.mwFromOffsets (3 * sw.val + se.val)).bind MW.ofIndex) :=
+  ⟨TopoGen.mw_opposite, TopoGen.mw_offsets, TopoGen.mw_kinds, TopoGen.mw_from_offsets⟩
 
 end Hpx.C04
